@@ -214,7 +214,7 @@ func TestC18QuarProbe(t *testing.T) {
 func c18StoreDiffs(a, b *c18Net) map[string][]string {
 	out := map[string][]string{}
 	for _, m := range c18Modules {
-		sa, sb := a.rawStore(m), b.rawStore(m)
+		sa, sb := c18StoreScope(m, a.rawStore(m)), c18StoreScope(m, b.rawStore(m))
 		inA, inB := map[string]bool{}, map[string]bool{}
 		for _, x := range sa {
 			inA[x] = true
@@ -245,6 +245,25 @@ func c18StoreDiffs(a, b *c18Net) map[string][]string {
 				}
 			}
 		}
+	}
+	return out
+}
+
+// c18StoreScope: the entries of a module store that the store comparison covers.  Everything,
+// except in the attribute store the name->address lookup counters (0x03: the AttributeAccounts
+// query comparison covers them; the known double-count finding lives there) and the expiration
+// queue (0x04: an attribute re-added with another expiration leaves its old queue entry behind,
+// which the sweep ignores since fix 9541faffb; import rebuilds the queue from the records).
+func c18StoreScope(module string, entries []string) []string {
+	if module != "attribute" {
+		return entries
+	}
+	var out []string
+	for _, e := range entries {
+		if strings.HasPrefix(e, "03") || strings.HasPrefix(e, "04") {
+			continue
+		}
+		out = append(out, e)
 	}
 	return out
 }
